@@ -311,7 +311,16 @@ func readOperationPack(def Definition, repo repository.RepoData, resolvers entit
 		// else goes against the grain and make it very unhappy.
 		keyring := openpgp.EntityList{}
 		for _, key := range keys {
-			keyring = append(keyring, key.PGPEntity())
+			pgpEntity := key.PGPEntity()
+			if len(pgpEntity.Identities) == 0 {
+				// a key known by its public part only can't be used to verify (see
+				// Key.PGPEntity), and openpgp crashes on such an entity
+				continue
+			}
+			keyring = append(keyring, pgpEntity)
+		}
+		if len(keyring) == 0 {
+			return nil, fmt.Errorf("signature failure: no usable key to verify the signature")
 		}
 		_, err = openpgp.CheckDetachedSignature(keyring, commit.SignedData, commit.Signature, nil)
 		if err != nil {
